@@ -1055,7 +1055,10 @@ pub fn step(cfg: &Cfg, sut: &mut Sut, m: &mut Model, pre: &Snapshot, op: Op, has
     // ---- C11: invalidated and expired entries are released once maintenance has run
     // (U: the calls that begin with the purge; S: the previous call was sync()).
     let purging_call = if u { matches!(op, Op::Ins(..) | Op::Get(_) | Op::Con(_) | Op::Inv(_)) } else { m.maintained };
-    if purging_call {
+    // one purge pass handles a bounded batch (100 / 500 nodes per queue): the clause
+    // speaks about caches smaller than one batch
+    let within_one_batch = pre.entries.len() <= if u { 100 } else { 500 };
+    if purging_call && within_one_batch {
         let dead = |k: u8| -> Option<&'static str> {
             let km = &m.keys[k as usize];
             if !km.has || km.inval {
